@@ -365,7 +365,14 @@ class AffTok(Ext):
         if attr == "decompose_translation":
             return PyCallable(lambda i, a, k: (AffTok(("translation-part-of[" + "*".join(self.app) + "]",)) if self.app else AffTok(), AffTok(("linear-part-of[" + "*".join(self.app) + "]",)) if self.app else AffTok()))
         if attr == "map_point":
-            return PyCallable(lambda i, a, k: ("mapped", self, a[0]))
+            def mp(i, a, k):
+                from sa.poly import RF
+                pt = tuple(i.iterate(a[0]))
+                tag = "*".join(self.app) or "identity"
+                if not self.app:
+                    return pt
+                return (RF.sym(f"mapx[{tag}]({pt[0]!r},{pt[1]!r})"), RF.sym(f"mapy[{tag}]({pt[0]!r},{pt[1]!r})"))
+            return PyCallable(mp)
         raise Undecided(f"Affine2D.{attr} not modelled on symbolic transforms")
 
     def __repr__(self):
